@@ -232,3 +232,64 @@ Proof. intros Hf Hc Ht Hs0 Hn Hr Hg Hsb. unfold run_plan.
   - destruct Flast as [?|Flast]; [contradiction|].
     rewrite (last_block fs nch N start nsamps g sb Hc Ht Hs0 Hr Fsblt s1 nreads lr _ HI1 Ha1) by (try lia; destruct (lr =? 0); nia).
     reflexivity. Qed.
+
+(** * the plan parameters as explicit functions of the request (used to transfer theorems between readers) *)
+Definition plan_params (gulp0 nsamps skipback0 : Z) : Z * Z * Z * Z :=
+  let g := Z.min nsamps gulp0 in
+  let sb := Z.abs skipback0 in
+  let nreads := (nsamps - g) / (g - sb) + 1 in
+  let lr0 := nsamps - nreads * (g - sb) in
+  (g, sb, nreads, if lr0 =? sb then 0 else lr0).
+
+Lemma fil_plan_params gulp0 start nsamps skipback0 N nch :
+  1 <= gulp0 -> 1 <= nsamps -> Z.abs skipback0 < Z.min nsamps gulp0 ->
+  let '(g, sb, nreads, lr) := plan_params gulp0 nsamps skipback0 in
+  fil_plan gulp0 start nsamps skipback0 N (N * nch) nch nch =
+    Some (g, sb, start * nch, map (mkfull g sb nch) (zrange nreads) ++ (if lr =? 0 then [] else [(nreads, lr * nch, 0)]))
+  /\ plan_facts gulp0 nsamps skipback0 g sb nreads lr.
+Proof. intros Hg Hn Hs. unfold plan_params, fil_plan.
+  set (g := Z.min nsamps gulp0). set (sb := Z.abs skipback0).
+  replace (sb >=? g) with false by lia.
+  replace (negb (N * nch =? N * nch)) with false by (rewrite Z.eqb_refl; reflexivity). rewrite andb_false_r.
+  set (nreads := (nsamps - g) / (g - sb) + 1).
+  set (lr0 := nsamps - nreads * (g - sb)).
+  assert (Hq : 0 <= (nsamps - g) / (g - sb)) by (apply Z.div_pos; lia).
+  assert (Hd : (g - sb) * ((nsamps - g) / (g - sb)) <= nsamps - g < (g - sb) * ((nsamps - g) / (g - sb)) + (g - sb)).
+  { pose proof (Z.div_mod (nsamps - g) (g - sb) ltac:(lia)). pose proof (Z.mod_pos_bound (nsamps - g) (g - sb) ltac:(lia)). lia. }
+  assert (Hlr : sb <= lr0 < g) by (unfold lr0, nreads; nia).
+  destruct (Z.eqb_spec lr0 sb) as [E|NE].
+  - split.
+    + change (0 =? 0) with true. cbn [negb]. rewrite app_nil_r. reflexivity.
+    + constructor; try reflexivity; try lia; try (unfold nreads; nia). change (0 =? 0) with true. unfold lr0, nreads in *. nia.
+  - split.
+    + destruct (Z.eqb_spec lr0 0) as [E0|NE0]; cbn [negb].
+      * rewrite app_nil_r. reflexivity.
+      * reflexivity.
+    + constructor; try reflexivity; try lia; try (unfold nreads; nia);
+      try solve [destruct (Z.eqb_spec lr0 0); [left; assumption|right; lia]];
+      try solve [destruct (Z.eqb_spec lr0 0); unfold lr0, nreads in *; nia]. Qed.
+
+Lemma run_plan_params fs nch N gulp0 start nsamps skipback0 :
+  1 <= nfiles fs -> 1 <= nch -> total fs = N * nch ->
+  0 <= start -> 1 <= nsamps -> start + nsamps <= N -> 1 <= gulp0 ->
+  Z.abs skipback0 < Z.min nsamps gulp0 ->
+  run_plan fs nch gulp0 start nsamps skipback0 =
+    POk (let '(g, sb, nreads, lr) := plan_params gulp0 nsamps skipback0 in plan_blocks fs nch start g sb nreads lr).
+Proof. intros Hf Hc Ht Hs0 Hn Hr Hg Hsb. unfold run_plan.
+  replace (total fs / nch) with N by (rewrite Ht; symmetry; apply Z.div_mul; lia). rewrite Ht.
+  pose proof (fil_plan_params gulp0 start nsamps skipback0 N nch Hg Hn Hsb) as L.
+  destruct (plan_params gulp0 nsamps skipback0) as [[[g sb] nreads] lr]. destruct L as [-> F].
+  destruct F as [Fg Fsb Fsblt Fnr Ffit Flast Fcov].
+  destruct (init_inv fs Hf) as [HI0 Ha0].
+  destruct (seek_set_ok fs (init fs) (start * nch) ltac:(nia)) as [s0 [-> [HIs Has]]].
+  unfold plan_blocks, zrange. set (k := Z.to_nat nreads). assert (Hk : Z.of_nat k = nreads) by lia.
+  assert (Has' : absp fs s0 = P nch start g sb (Z.of_nat 0)) by (rewrite Has; unfold P; cbn; lia).
+  destruct (full_blocks fs nch N start nsamps g sb Hc Ht Hs0 Hn Hr Fsblt
+              (if lr =? 0 then [] else [(nreads, lr * nch, 0)]) k 0%nat s0 [] HIs Has') as [s1 [-> [HI1 Ha1]]].
+  { right. rewrite Hk. cbn. lia. }
+  cbn [app]. rewrite Nat.add_0_l, Hk in Ha1.
+  destruct (Z.eqb_spec lr 0) as [E|NE].
+  - cbn [plan_loop]. rewrite app_nil_r. reflexivity.
+  - destruct Flast as [?|Flast]; [contradiction|].
+    rewrite (last_block fs nch N start nsamps g sb Hc Ht Hs0 Hr Fsblt s1 nreads lr _ HI1 Ha1) by (try lia; destruct (lr =? 0); nia).
+    reflexivity. Qed.
